@@ -24,11 +24,20 @@ pub fn check(tier: Tier) -> Check {
             tier.pick(15, 300),
         ));
     }
+    // the broker's Session Expiry Interval (CONNACK) overrides the requested one
+    for (expiry, cexp, ago) in [(3600u64, 30u64, 60u64), (0, 1000, 10), (30, 3600, 60), (1000, 0, 10)] {
+        parts.push(Part::new(
+            "C17/resume",
+            json!({"depth": tier.pick(4, 6), "expiry": expiry, "connack_expiry": cexp, "secs_ago": ago}),
+            0,
+            tier.pick(15, 300),
+        ));
+    }
     Check {
         also_rel: false,
         property: "C17",
         level: "model_checking",
-        rule: "all histories of QoS 1/2 publishes, pings, subscribes, unsubscribes and their acknowledgements (success / failing) up to the stated depth; the connection is lost (EOF) after every prefix; the hook records the disconnection secs_ago seconds ago; set_up + connect (same options) + run on a fresh transport; the second wire must show CONNECT followed by exactly the unfinished PUBLISH (DUP=1, same id and content) / PUBREL packets in original order when the session has not expired, nothing when it has; then the acknowledgements arrive on the new connection and a fresh publish follows; session expiry in {0, 1000 s, never} x secs_ago in {10, 100000}; non-trivial = something had to be re-sent or an expired session had abandoned operations".into(),
+        rule: "all histories of QoS 1/2 publishes, pings, subscribes, unsubscribes and their acknowledgements (success / failing) up to the stated depth; the connection is lost (EOF) after every prefix; the hook records the disconnection secs_ago seconds ago; set_up + connect (same options) + run on a fresh transport; the second wire must show CONNECT followed by exactly the unfinished PUBLISH (DUP=1, same id and content) / PUBREL packets in original order when the session has not expired, nothing when it has; then the acknowledgements arrive on the new connection and a fresh publish follows; session expiry in {0, 1000 s, never} x secs_ago in {10, 100000}, and four combinations in which the CONNACK states a different Session Expiry Interval than the CONNECT (the broker's is the one in force); non-trivial = something had to be re-sent or an expired session had abandoned operations".into(),
         assumptions: vec![
             "same ConnectOpts on both connections; secs_ago is >= 100 s away from the expiry boundary (the wall clock is not behind a seam)".into(),
             "the disconnection is recorded by the cfg(poster_verif) hook, production code never records it".into(),
@@ -42,6 +51,7 @@ pub fn scenario(name: &str, params: &Value) -> Scenario {
     let depth = params["depth"].as_u64().unwrap_or(4) as usize;
     let expiry = params["expiry"].as_u64().unwrap_or(0) as u32;
     let secs_ago = params["secs_ago"].as_u64().unwrap_or(10);
+    let connack_expiry: Option<u32> = params["connack_expiry"].as_u64().map(|v| v as u32);
     let params = params.clone();
     let name = name.to_string();
     Box::new(move |chz, ex| {
@@ -54,12 +64,17 @@ pub fn scenario(name: &str, params: &Value) -> Scenario {
             session_expiry: if expiry == 0 { None } else { Some(expiry) },
             ..Default::default()
         };
+        let cprops: Vec<Prop> = connack_expiry
+            .map(|v| vec![Prop::u32(P_SESSION_EXPIRY, v)])
+            .unwrap_or_default();
+        // the interval in force is the broker's, if it states one
+        let expiry = connack_expiry.unwrap_or(expiry);
         sys.connect_with(
             spec.clone(),
             SPacket::Connack {
                 session_present: false,
                 reason: 0,
-                props: vec![],
+                props: cprops.clone(),
             },
         );
         if !sys.dead {
@@ -101,7 +116,7 @@ pub fn scenario(name: &str, params: &Value) -> Scenario {
                 SPacket::Connack {
                     session_present: !expired,
                     reason: 0,
-                    props: vec![],
+                    props: cprops.clone(),
                 },
             );
             if !sys.dead {
